@@ -108,7 +108,7 @@ def gen_cmd(rng, mm, w, depth=0):
         if cur and rng.random() < .5:
             return ('Remove', x, f.fid, w.tok(rng.choice(cur)), None), False
         if rng.random() < .8:
-            return ('Remove', x, f.fid, None, rng.randint(-(n + 1), n + 1)), False
+            return ('Remove', x, f.fid, None, rng.choice([-1, -1, -2, 0, 1, rng.randint(-(n + 1), n + 1)])), False
         v = g.value_for(f, x, True)
         if v is None or v[0] == 'n':
             return None
@@ -175,6 +175,20 @@ def run_word(ctx, h, nletters, prefix_ops=12):
         if line.startswith('delete'):
             continue
         w.apply(line); pre.append(line)
+    for _ in range(3):                          # … with a few well-filled collections (positions matter for undo)
+        f = rng.choice(mm.feats)
+        xs = g.objs_with(f)
+        if not f.many or not xs:
+            continue
+        x = rng.choice(xs)
+        vs = []
+        for _ in range(4):
+            v = g.value_for(f, x, True)
+            if v is not None and v[0] != 'n' and v[0] not in vs:
+                vs.append(v[0])
+        if vs:
+            line = f"extend {x} {f.fid} {' '.join(vs)}"
+            w.apply(line); pre.append(line)
     word = []
     shadow, idx = [], -1
     problems = []
